@@ -174,7 +174,7 @@ def h_branch_row(status):
     return h
 
 
-def stub_system(I, base):
+def stub_system(I, base, pv_bus=2):
     """2 buses; loads D0,D1 on bus 1 and D2 on bus 2; shunts C0,C1 on bus 2; one PV, one slack, one line"""
     A = I.arr
     Bus = NS(n=2, idx=NS(v=[1, 2]), v0=NS(v=A('b0_v0', 'b1_v0')), a0=NS(v=A('b0_a0', 'b1_a0')), Vn=NS(v=A('b0_Vn', 'b1_Vn')),
@@ -186,9 +186,24 @@ def stub_system(I, base):
     for u in list(PQ.u.v) + list(Sh.u.v):
         I.assume(OR(EQ(u, 0, tol=0.0), EQ(u, 1, tol=0.0)))
     gen = lambda t, bus: NS(n=1, bus=NS(v=[bus]), **{k: NS(v=A(f'{t}_{k}')) for k in ('p0', 'q0', 'qmax', 'qmin', 'v0', 'u', 'pmax', 'pmin', 'a0')})
-    PV, SL = gen('G', 2), gen('S', 1)
+    PV, SL = gen('G', pv_bus), gen('S', 1)
     Line = NS(n=1, bus1=NS(v=[1]), bus2=NS(v=[2]), **{k: NS(v=A(f'L_{k}')) for k in ('r', 'x', 'b', 'rate_a', 'rate_b', 'rate_c', 'tap', 'phi', 'u')})
     return NS(config=NS(mva=base), Bus=Bus, PQ=PQ, Shunt=Sh, PV=PV, Slack=SL, Line=Line)
+
+
+def h_system2mpc_pv_on_slack_bus(I):
+    """a PV device on the swing bus does not take the reference mark away from it"""
+    import andes.io.matpower as MP
+    base = I.real('baseMVA')
+    I.assume(LT(0, base))
+    ss = stub_system(I, base, pv_bus=1)
+    DEGs, rad2deg = angle_units(I)
+    f = pysym.rebind(MP.system2mpc, np=pysym.NPXO if I.symbolic else np, rad2deg=rad2deg, deg2rad=DEGs)
+    mpc = f(ss)
+    bus, gen = mpc['bus'], mpc['gen']
+    return [('the swing bus is exported as reference bus (type 3) although a PV device sits on it too', EQ(bus[0, 1], 3, tol=0.0)),
+            ('the bus without generator is exported as PQ bus (type 1)', EQ(bus[1, 1], 1, tol=0.0)),
+            ('both generators are exported on the swing bus', gen.shape[0] == 2 and EQ(gen[0, 0], 1, tol=0.0) and EQ(gen[1, 0], 1, tol=0.0))]
 
 
 def h_system2mpc(I):
@@ -329,6 +344,9 @@ def h_psse_load_shunt_gen(I):
     gen = [1, '1 '] + [I.real(n) for n in ('PG', 'QG', 'QT', 'QB', 'VS')] + [0, I.real('MBASE'), I.real('ZR'), I.real('ZX'), 0.0, 0.0, 1.0, 1, 100.0,
                                                                                I.real('PT'), I.real('PB')] + [1, 1.0] + [0] * 8
     a0 = I.real('slack_angle')
+    # a record that stops after the ownership fields (26 values: WMOD and WPF are optional) is read like the full record
+    short = _psse('_parse_gen_v33')({'gen': [gen[:26]]}, ss, {})
+    res.append(('generator record without the optional trailing fields is read', len(short['PV']) == 1 and len(gen) >= 27))
     for is_slack in (True, False):
         g = _psse('_parse_gen_v33')({'gen': [gen]}, ss, {1: a0} if is_slack else {})
         kind = 'Slack' if is_slack else 'PV'
@@ -412,6 +430,8 @@ def job(spec):
         return H.run(f'mpc2system branch row [status {arg}]', h_branch_row(arg), region=lambda v, c: c)
     if kind == 's2m':
         return H.run('system2mpc', h_system2mpc, max_paths=4000, region=lambda v, c: c.split(':')[-1].strip() if c.startswith('bus row') else c)
+    if kind == 's2mslack':
+        return H.run('system2mpc with a PV device on the swing bus', h_system2mpc_pv_on_slack_bus, max_paths=4000, region=lambda v, c: c)
     if kind == 'rt':
         return H.run('mpc -> system -> mpc', h_roundtrip, max_paths=4000, region=lambda v, c: c)
     if kind == 'pbranch':
@@ -441,7 +461,7 @@ def main():
     ck.out('reading/writing xlsx, json, raw and dyr FILES (pandas, openpyxl, text->float, yaml) -- not encodable',
            'PSS/E: winding-2 off-nominal ratio for CW = 1/3 (assumed 1), impedance code CZ = 3, admittance code CM = 2, switched shunts, dyr files',
            'area/zone columns (documented as unsupported by system2mpc)')
-    jobs = [('pbranch', 0), ('plsg', 0), ('pt3', 0)] + [('pt2', (cw, cz)) for cw in (1, 2, 3) for cz in (1, 2)] + [('bus', t) for t in (1, 3)] + [('gen', (t, s)) for t in (2, 3) for s in (1, 0)] + [('branch', s) for s in (1, 0)] + [('s2m', 0), ('rt', 0)]
+    jobs = [('pbranch', 0), ('plsg', 0), ('pt3', 0)] + [('pt2', (cw, cz)) for cw in (1, 2, 3) for cz in (1, 2)] + [('bus', t) for t in (1, 3)] + [('gen', (t, s)) for t in (2, 3) for s in (1, 0)] + [('branch', s) for s in (1, 0)] + [('s2m', 0), ('s2mslack', 0), ('rt', 0)]
     ck.merge(core.pmap(job, jobs))
     ck.sample({'branch row': '[1, 2, r, x, b, rateA, rateB, rateC, ratio, angle, status, ...] with symbolic numbers'})
     ck.finish()
